@@ -55,7 +55,7 @@ Check(r) ==
 
 Init == l = 1
 Next == /\ l <= Len(Rec)
-        /\ Check(Rec[l]) \in BOOLEAN   \* value context: TLC must not split the disjunctions inside
+        /\ (Rec[l].kind # "adf" \/ Check(Rec[l])) \in BOOLEAN   \* value context: TLC must not split the disjunctions inside
         /\ l' = l + 1
 Spec == Init /\ [][Next]_l
 
